@@ -77,7 +77,7 @@ func runReceive(p *Prog, version, max *int64) ([]recvPath, int) {
 		if callee != nil && sessionFns[callee] {
 			effs = append(effs, "session")
 		}
-		if c := call.Common(); c.IsInvoke() && c.Method.Name() == "DecodeBody" {
+		if libDecodeKind(p, call) == "DecodeBody" {
 			effs = append(effs, "decodebody")
 		}
 		return effs
